@@ -30,6 +30,12 @@ def anychar(sigma, exclude=''):
 
 def regex_to_z3(rx, sigma=ALPHABET, search=False):
     """-> z3 RegLan over the alphabet `sigma` for `Regex::is_match` semantics (search=True: unanchored unless ^/$)."""
+    import re as _re0
+    tail = _re0.search(r'(?<!\\)\((?:\?:)?([^()|\\]*)\|\$\)$', rx)
+    if tail and search:
+        # `core(X|$)` at the very end: the alternation distributes (search semantics): core X | core $
+        core = rx[:tail.start()]
+        return z3.Union(regex_to_z3(core + tail.group(1), sigma, True), regex_to_z3(core + '$', sigma, True))
     pos = [0]; n = len(rx)
     icase = [False]
     anchored_start = [False]; anchored_end = [False]
